@@ -445,9 +445,15 @@ func (m *Map) Range(f func(key, value any) bool) {
 type Pool struct {
 	New func() any
 
-	items []poolItem
+	// Fixed-size storage handled with plain loops inside //go:norace functions:
+	// append/copy would call into runtime helpers that report to the race
+	// detector on behalf of their caller.
+	items [poolCap]poolItem
+	n     int
 	reg   bool
 }
+
+const poolCap = 64
 
 type poolItem struct {
 	x     any
@@ -460,15 +466,24 @@ func (p *Pool) push(x any) {
 		p.reg = true
 		simrt.RegisterPoolReset(p.reset)
 	}
-	p.items = append(p.items, poolItem{x, simrt.Cur()})
+	if p.n >= poolCap {
+		return // full: dropping is legal
+	}
+	p.items[p.n] = poolItem{x, simrt.Cur()}
+	p.n++
 }
 
 //go:norace
-func (p *Pool) reset() { p.items = nil }
+func (p *Pool) reset() {
+	for i := 0; i < p.n; i++ {
+		p.items[i] = poolItem{}
+	}
+	p.n = 0
+}
 
 //go:norace
 func (p *Pool) pop() (any, bool, bool) {
-	n := len(p.items)
+	n := p.n
 	if n == 0 {
 		return nil, false, false
 	}
@@ -483,7 +498,11 @@ func (p *Pool) pop() (any, bool, bool) {
 		}
 	}
 	it := p.items[i]
-	p.items = append(p.items[:i], p.items[i+1:]...)
+	for k := i; k < n-1; k++ {
+		p.items[k] = p.items[k+1]
+	}
+	p.items[n-1] = poolItem{}
+	p.n = n - 1
 	return it.x, true, it.owner != me
 }
 
